@@ -79,33 +79,65 @@ pub fn %s() {
                            "bounds": "%s: every %d-byte payload whose satellite/signal masks are the concrete shape %s (cell mask and all data symbolic)" % (mod, B, sname)})
             continue
         fixed = not G.has_var(mod)
-        variants = []
+        cap = G.max_cap(mod)
+        unw = max(12, cap + 2)
+        stub = "#[kani::stub(core::str::from_utf8, crate::util::from_utf8_ref)]\n" if mod == "msg1029" else ""
+        grp = "stub" if mod == "msg1029" else ("big" if cap >= 390 else "main")
+        variants = []   # (name, bytes, patches [(off,width,val)], main?, description)
         if fixed:
             w = G.width(mod, 0)
             full = (12 + w + 7) // 8
-            variants = [("full", full, True), ("short", full - 1, False), ("b3", 3, False)]
+            variants = [("full", full, [], True, "full fixed layout, every field pattern"), ("short", full - 1, [], False, "one byte short"), ("b3", 3, [], False, "3 bytes")]
+        elif mod in ("msg1059", "msg1065"):
+            sb = 6 if mod == "msg1059" else 5
+            hdr = 12 + G.width(mod, 0) - 6
+            known = T.ssr[mod[3:]][0][0]
+            unknown = [i for i in range(32) if i not in [r[0] for r in T.ssr[mod[3:]]]][0]
+            for n, sig, tag in ((0, known, "n0"), (1, known, "n1"), (2, known, "n2"), (2, unknown, "n2unk")):
+                patches = [(hdr, 6, n)]
+                o = hdr + 6
+                for i in range(n):
+                    patches.append((o + sb, 5, 1))
+                    patches.append((o + sb + 5, 5, sig))
+                    o += sb + 5 + 5 + (14 if sig == known else 0)
+                variants.append((tag, (o + 7) // 8, patches, tag in ("n2", "n2unk"), "%d satellites x 1 entry, signal id %d (%s), satellite ids and biases symbolic" % (n, sig, "recognised" if sig == known else "unrecognised")))
+            variants.append(("b3", 3, [], False, "3 bytes"))
+        elif mod in ("msg1029", "msg1230"):
+            for n in (0, 1, 2, 4):
+                w = G.width(mod, n)
+                B = (12 + w + 7) // 8
+                hdr = 12 + G.width(mod, 0)
+                if mod == "msg1029":
+                    patches = [(hdr - 8, 8, n)]
+                    desc = "byte count %d, text bytes symbolic (valid and invalid UTF-8)" % n
+                else:
+                    patches = [(hdr - 4, 4, (0b1111 << (4 - n)) & 0b1111)]
+                    desc = "signal mask with %d entries" % n
+                variants.append(("n%d" % n, B, patches, n == 2, desc))
+            variants.append(("b3", 3, [], False, "3 bytes"))
         else:
-            w2 = G.width(mod, 2)
-            if w2 is None:
-                raise Exception("layout of %s not computable" % mod)
-            full2 = (12 + w2 + 7) // 8 + 1
-            w0 = G.width(mod, 0)
-            variants = [("n2", full2, True), ("n0", (12 + w0 + 7) // 8, False), ("b3", 3, False)]
-            if mod in ("msg1059", "msg1065"):
-                variants = [("b12", 12, True), ("b3", 3, False)]
-        cap = G.max_cap(mod)
-        unw = max(12, min(cap, 64) + 2) if cap < 390 else 392
-        for vname, B, main in variants:
+            import props.c15 as c15
+            for n in (0, 1, 2):
+                lay = c15.Lay(G, n)
+                lay.walk(mod, "m")
+                patches = [(off, w, n) for off, w, _, _ in lay.counts]
+                variants.append(("n%d" % n, (lay.off + 7) // 8, patches, n == 2, "every list/string count set to %d, everything else symbolic" % n))
+            lay3 = c15.Lay(G, 3)
+            lay3.walk(mod, "m")
+            lay2 = c15.Lay(G, 2)
+            lay2.walk(mod, "m")
+            variants.append(("n3short", (lay2.off + 7) // 8, [(off, w, 3) for off, w, _, _ in lay3.counts], False, "counts say 3 but the body holds 2: buffer-overflow path"))
+            variants.append(("b3", 3, [], False, "3 bytes"))
+        for vname, B, patches, main, desc in variants:
             fin = []
             G.finite_checks(mod, "m", 2, fin)
             name = "%s_%s" % (mod, vname)
-            stub = ""
-            if mod == "msg1029":
-                stub = "#[kani::stub(core::str::from_utf8, crate::util::from_utf8_ref)]\n"
+            pt = "\n    ".join("set_bits(&mut payload, %d, %d, %d);" % p for p in patches if p[0] + p[1] <= 8 * B)
             code.append("""#[kani::proof]
 #[kani::unwind(%d)]
 %spub fn %s() {
-    let payload: [u8; %d] = kani::any();
+    let mut payload: [u8; %d] = kani::any();
+    %s
     let mut par = Parser::new(&payload, 12);
     match codec::%s::decode(&mut par) {
         Ok(m) => {
@@ -116,10 +148,9 @@ pub fn %s() {
         Err(_) => {}
     }
 }
-""" % (unw, stub, name, B, mod, "\n            ".join(fin)))
-            grp = "stub" if mod == "msg1029" else ("big" if cap >= 390 else "main")
+""" % (unw, stub, name, B, pt, mod, "\n            ".join(fin)))
             hs.append({"name": "c02::%s" % name, "group": grp, "tier": "quick" if (q and main) else "thorough",
-                       "bounds": "%s: every payload of %d bytes (%s)" % (mod, B, "all field patterns; counts above what fits take the buffer-overflow path" if not fixed else "full fixed layout" if vname == "full" else "truncated")})
+                       "bounds": "%s: every payload of %d bytes with %s" % (mod, B, desc)})
     gen.write_gen("c02_list.rs", "\n".join(code))
     return {
         "harnesses": hs,
@@ -131,9 +162,9 @@ pub fn %s() {
         "functions": ["rtcm_rs::msg::msgNNNN::decode for all %d message types (called through the verification hook re-exports)" % len(T.messages),
                       "Parser::parse, df::dfs::*::decode, frag_vec/frag_vec_with_len/frag_grid16p/msm_* decode, DataVec::push/set_len"],
         "bounds": {"fixed_layout": "full-length payload (all bit patterns of every field), full-1 and 3 bytes",
-                   "lists": "payload = header + 2 elements + 1 byte: every count value, counts > 2 end in BufferOverflow; header-only; 3 bytes",
+                   "lists": "count fields fixed to 0, 1, 2 per harness (and 3 with a body for 2: overflow path), every other bit symbolic; counts above capacity: C15",
                    "msm": "satellite/signal masks from 6 concrete shapes (0x0, 1x1, 2x2, 3x2, 8x8=64 cells, 9x8=72 cells), cell mask and data symbolic",
-                   "1059/1065": "12-byte payloads (symbolic counts and signal ids)",
+                   "1059/1065": "0..2 satellites x 1 entry with a recognised / an unrecognised signal id, satellite ids and biases symbolic; the 391st push is C16's capacity harness",
                    "checks": "all Kani default checks (overflow, shifts, indices, unwrap, capacity panics) + floats finite + m == m",
                    "quick": "%d representative types; thorough: all %d" % (len(QUICK), len(T.messages))},
         "outside": ["payloads longer than the stated B per type (the max-count container overflow of 1059/1065 needs ~930 bytes: covered by C16's capacity harness)",
